@@ -55,7 +55,7 @@ var props = map[string]*PropDef{
 		Technique:  "path-sensitive go/cfg dataflow; table agreement",
 	},
 	"C08": {
-		Rules:      []string{"NS-1", "NS-2", "NS-3", "MATRIX", "MAPCACHE-1", "TXN-1", "MERGE-1", "POOL-2", "TXN-2", "TXN-3"},
+		Rules:      []string{"NS-1", "NS-2", "NS-3", "MATRIX", "MAPCACHE-1", "TXN-1", "MERGE-1", "POOL-2", "TXN-2", "TXN-3", "FP-2"},
 		Decided:    "every place that switches the coder's duplicate check off tracks names another way (struct seen-set, map key presence plus seen-set for pre-populated maps, untyped map), under no option other than AllowDuplicateNames; unknown/fallback members are inserted into the namespace before being skipped; encoder namespaces are only disabled for key kinds with a unique representation and no custom key marshaler; disabled namespaces are invalidated after a failed top-level call; all recogniser paths check duplicates and UTF-8 under exactly their option; the namespace's map cache stays complete.",
 		NotDecided: "later-wins/merge results under AllowDuplicateNames; equality after unescaping itself.",
 		Technique:  "guard dominance; path-sensitive go/cfg dataflow; sibling matrix",
